@@ -42,10 +42,10 @@ func uid(_ spec.RoomID, s spec.SenderID) (*spec.UserID, error) {
 	return spec.NewUserID(string(s), true)
 }
 
-var tamperNames = []string{"none", "content-unprotected", "content-protected", "top-junk", "hash-altered", "hash-removed", "unsigned", "age_ts", "outlier", "destinations", "redacts-top", "depth", "sticky", "msc4354_sticky", "event_id-top"}
+var tamperNames = []string{"none", "content-unprotected", "content-protected", "top-junk", "hash-altered", "hash-removed", "unsigned", "age_ts", "outlier", "destinations", "redacts-top", "depth", "sticky", "msc4354_sticky", "event_id-top", "event_id-twice", "unsigned-twice", "age_ts-twice"}
 
 // redactable[t]: the tampering touches only material that redaction removes or that is stripped on receipt
-var redactableOnly = map[string]bool{"none": true, "content-unprotected": true, "top-junk": true, "unsigned": true, "age_ts": true, "outlier": true, "destinations": true, "sticky": true, "msc4354_sticky": true, "event_id-top": true}
+var redactableOnly = map[string]bool{"none": true, "content-unprotected": true, "top-junk": true, "unsigned": true, "age_ts": true, "outlier": true, "destinations": true, "sticky": true, "msc4354_sticky": true, "event_id-top": true, "event_id-twice": true, "unsigned-twice": true, "age_ts-twice": true}
 
 func set(v *refjson.Value, key string, val *refjson.Value) *refjson.Value {
 	out := &refjson.Value{Kind: refjson.Object}
@@ -123,6 +123,23 @@ func tamper(version string, v *refjson.Value, t string) (*refjson.Value, bool) {
 			return nil, false
 		}
 		return set(v, "event_id", lit(`"$forged_event_id"`)), true
+	case "event_id-twice", "unsigned-twice", "age_ts-twice":
+		// a key that is stripped on receipt, present twice (a text no honest serialiser emits but any peer can send): both
+		// copies have to go. The members are put first and last so that neither a first-match nor a last-match reader is spared.
+		key := strings.TrimSuffix(t, "-twice")
+		if key == "event_id" && row.EventFormat == 1 {
+			return nil, false
+		}
+		vals := map[string][2]string{"event_id": {`"$forged_first"`, `"$forged_second"`}, "unsigned": {`{"forged":"first"}`, `{"forged":"second"}`}, "age_ts": {`5`, `6`}}[key]
+		out := &refjson.Value{Kind: refjson.Object}
+		out.Members = append(out.Members, refjson.Member{Key: key, Val: lit(vals[0])})
+		for _, m := range v.Members {
+			if m.Key != key {
+				out.Members = append(out.Members, m)
+			}
+		}
+		out.Members = append(out.Members, refjson.Member{Key: key, Val: lit(vals[1])})
+		return out, true
 	case "sticky", "msc4354_sticky": // top-level keys outside every keep-list that an accessor (IsSticky / StickyEndTime) reads
 		return set(v, t, lit(`{"duration_ms":600000}`)), true
 	}
@@ -309,7 +326,7 @@ func runCase(r *harness.Run, c c04Case) error {
 func main() { harness.Main("C04", "model_checking", run) }
 
 func run(r *harness.Run) {
-	r.Rule("every built event of the proto-event alphabet (9 type/state-key shapes x contents) x all 16 room versions x every single and every pair of 14 tamperings (incl. an added top-level event_id in formats 2 / 3) (unprotected / protected content key, extra top-level key, hash altered / removed, unsigned, age_ts, outlier, destinations, top-level redacts, depth, top-level sticky / msc4354_sticky) plus the untampered event, parsed with NewEventFromUntrustedJSON; additionally each tampered copy is parsed after the genuine copy and again after another tampered copy (history sensitivity). Oracle: Redacted() <=> reference content-hash mismatch; JSON()/Content()/Redacts()/Unsigned()/StickyEndTime()/IsSticky()/headered JSON equal the reference redaction (refredact) resp. the intact event; redactable-only tampering keeps the event ID and the signature verdict. Non-trivial = distinct (version, event, tampering set).")
+	r.Rule("every built event of the proto-event alphabet (9 type/state-key shapes x contents) x all 16 room versions x every single and every pair of 17 tamperings (incl. an added top-level event_id in formats 2 / 3, and event_id / unsigned / age_ts present twice) (unprotected / protected content key, extra top-level key, hash altered / removed, unsigned, age_ts, outlier, destinations, top-level redacts, depth, top-level sticky / msc4354_sticky) plus the untampered event, parsed with NewEventFromUntrustedJSON; additionally each tampered copy is parsed after the genuine copy and again after another tampered copy (history sensitivity). Oracle: Redacted() <=> reference content-hash mismatch; JSON()/Content()/Redacts()/Unsigned()/StickyEndTime()/IsSticky()/headered JSON equal the reference redaction (refredact) resp. the intact event; redactable-only tampering keeps the event ID and the signature verdict. Non-trivial = distinct (version, event, tampering set).")
 	r.Assume("sha256/ed25519 trusted", "signature verdicts are taken through a static verifier holding the signers' keys (key validity is C06/C12)")
 	r.OnReplay("case", func(raw json.RawMessage) error {
 		var c c04Case
